@@ -202,6 +202,24 @@ func init() {
 			}
 			w.write(c08lib(s, f, d, c.rng.Intn(5)/4, c.rng.Intn(2) == 0, mf, mfr))
 		}
+		// (2b) every exact boundary: all (total, rate) with 100 f = rate * total for a whole f - the tolerance is
+		// met exactly (pass), one more failure exceeds it (fail); with and without dropped iterations in the total
+		maxTotal := c.pick(400, 2500)
+		for total := 1; total <= maxTotal; total++ {
+			for rate := 1; rate <= 99; rate++ {
+				if total*rate%100 != 0 {
+					continue
+				}
+				f := total * rate / 100
+				w.write(c08lib(total-f, f, 0, 0, false, 0, rate))
+				if f+1 <= total {
+					w.write(c08lib(total-f-1, f+1, 0, 0, false, 0, rate))
+				}
+				if d := (total - f) / 2; d > 0 && total%7 == 0 {
+					w.write(c08lib(total-f-d, f, d, 0, true, 0, rate))
+				}
+			}
+		}
 		// (3) the real CLI
 		type cli struct {
 			n, f       int
